@@ -940,6 +940,8 @@ const NON_SPELLINGS: &[&str] = &["#[allow(rustfmt_skip)]", "#[cfg_attr(rustfmt, 
 struct SkipProgram {
     src: String,
     node: String,
+    /// items and statements: the text from the first attribute (doc comment) of the node to its last token
+    full: Option<String>,
     kind: String,
     hole: Hole,
     chain: Vec<&'static str>,
@@ -958,6 +960,67 @@ fn junk_indent(rng: &mut Rng) -> String {
         2 => "\t".to_string(),
         _ => "    ".to_string(),
     }
+}
+
+/// (text, needs a line break after it, is a doc comment, is a plain comment)
+const EXTRA_ATTRS: &[(&str, bool, bool, bool)] = &[
+    ("#[allow( dead_code )]", false, false, false),
+    ("#[cfg( test )]", false, false, false),
+    ("#[cfg(any(feature = \"small-tables\",\n                  feature = \"tiny-tables\"))]", false, false, false),
+    ("#[cfg_attr(feature = \"a\",\n   allow( unused ))]", false, false, false),
+    ("#[doc  =  \"x  y\"]", false, false, false),
+    ("/// doc   comment", true, true, false),
+    ("/// Layout:\n        ///     row 0: 1 2\n   ///     row 1: 3 4", true, true, false),
+    ("/** block  doc */", false, true, false),
+    ("// plain   comment", true, false, true),
+];
+
+/// The attributes of a skipped node, from the first one to just before the node's first token: the skip
+/// spelling among 0..3 further attributes (one-line, multi-line, doc-comment lines, doc attribute) and
+/// possibly a plain comment line, each on its own badly indented line or on the line of the next one.
+/// `single_line`: everything on the line of the first attribute (no doc comments, no multi-line attribute),
+/// then the node on the same or on the next line.
+fn attr_block(rng: &mut Rng, spelling: &str, can_doc: bool, single_line: bool) -> String {
+    if spelling.starts_with("///") {
+        // (a look-alike control that is a doc comment)
+        return format!("{}{}", spelling, junk_indent(rng));
+    }
+    let mut parts: Vec<(String, bool)> = vec![];
+    let n = *rng.pick(&[0usize, 0, 1, 1, 2, 3]);
+    let mut plain_seen = false;
+    for _ in 0..n {
+        let (t, nl, doc, plain) = *rng.pick(EXTRA_ATTRS);
+        if (doc && !can_doc) || (plain && plain_seen) { continue; }
+        if single_line && (doc || plain || t.contains('\n')) { continue; }
+        plain_seen |= plain;
+        parts.push((t.to_string(), nl));
+    }
+    let at = rng.below(parts.len() + 1);
+    parts.insert(at, (spelling.to_string(), false));
+    if parts[0].0.starts_with("// ") {
+        // a comment before the first attribute is not part of the node
+        parts.swap(0, at);
+    }
+    let mut block = String::new();
+    for (t, nl) in &parts {
+        block.push_str(t);
+        if single_line {
+            block.push(' ');
+        } else if *nl {
+            block.push_str(*rng.pick(&["\n", "\n", "  \n"]));
+            block.push_str(&junk_indent(rng));
+        } else {
+            let sep = *rng.pick(&["\n", "\n", "\n", "\n", " ", "  \n", "\n\n"]);
+            block.push_str(sep);
+            if sep != " " { block.push_str(&junk_indent(rng)); }
+        }
+    }
+    if single_line && rng.chance(2, 3) {
+        block.pop();
+        block.push('\n');
+        block.push_str(&junk_indent(rng));
+    }
+    block
 }
 
 fn chain_to(rng: &mut Rng, target: Hole, depth: usize) -> Option<Vec<usize>> {
@@ -1040,24 +1103,37 @@ fn skip_program(rng: &mut Rng, counter: &mut usize, node_ix: usize, depth: usize
         bad.push(t);
         before_id = Some(bid);
     }
-    // the attributes: the skip spelling among 0-2 others, on their own lines or on the node's line
-    let others = ["#[allow( dead_code )]", "#[cfg( test )]", "/// doc  comment\n"];
-    let mut attrs: Vec<String> = vec![];
-    for _ in 0..*rng.pick(&[0usize, 0, 0, 1, 1, 2]) {
-        let o = *rng.pick(&others);
-        if o.starts_with("///") && !can_doc { continue; }
-        attrs.push(o.to_string());
-    }
-    let at = rng.below(attrs.len() + 1);
-    attrs.insert(at, spelling.to_string());
-    let ind = junk_indent(rng);
-    src.push_str(&ind);
-    for a in &attrs {
-        src.push_str(a);
-        if !a.ends_with('\n') {
-            src.push_str(*rng.pick(&["\n", "\n", "\n", " ", "  \n", "\n\n"]));
-        }
+    // the attributes: the skip spelling among 0-2 others, on their own lines or on the node's line; for items,
+    // statements and impl / trait items: among 0-3 further attribute lines, multi-line attributes, doc-comment
+    // lines, a plain comment line (`attr_block`)
+    let mut full = None;
+    if matches!(hole, Hole::Item | Hole::Stmt | Hole::ImplItem | Hole::TraitItem) && (accepted || !spelling.starts_with("///")) {
+        let block = attr_block(rng, spelling, hole != Hole::Stmt, false);
         src.push_str(&junk_indent(rng));
+        if matches!(hole, Hole::Item | Hole::Stmt) {
+            // visit_item / visit_stmt copy the whole span, attributes included, as it is written
+            full = Some(format!("{}{}", block, node));
+        }
+        src.push_str(&block);
+    } else {
+        let others = ["#[allow( dead_code )]", "#[cfg( test )]", "/// doc  comment\n"];
+        let mut attrs: Vec<String> = vec![];
+        for _ in 0..*rng.pick(&[0usize, 0, 0, 1, 1, 2]) {
+            let o = *rng.pick(&others);
+            if o.starts_with("///") && !can_doc { continue; }
+            attrs.push(o.to_string());
+        }
+        let at = rng.below(attrs.len() + 1);
+        attrs.insert(at, spelling.to_string());
+        let ind = junk_indent(rng);
+        src.push_str(&ind);
+        for a in &attrs {
+            src.push_str(a);
+            if !a.ends_with('\n') {
+                src.push_str(*rng.pick(&["\n", "\n", "\n", " ", "  \n", "\n\n"]));
+            }
+            src.push_str(&junk_indent(rng));
+        }
     }
     src.push_str(&node);
     src.push_str(sep);
@@ -1081,7 +1157,7 @@ fn skip_program(rng: &mut Rng, counter: &mut usize, node_ix: usize, depth: usize
         src.push_str(&format!("{}\n", t));
         bad.push(t);
     }
-    Some(SkipProgram { src, node, kind: kind.to_string(), hole, chain: chain.iter().map(|c| CONTAINERS[*c].0).collect(), spelling: spelling.to_string(), honoured_expected: accepted, before_id, after_id, bad_neighbours: bad })
+    Some(SkipProgram { src, node, full, kind: kind.to_string(), hole, chain: chain.iter().map(|c| CONTAINERS[*c].0).collect(), spelling: spelling.to_string(), honoured_expected: accepted, before_id, after_id, bad_neighbours: bad })
 }
 
 fn e2e_config(rng: &mut Rng, thorough: bool) -> Vec<(String, String)> {
@@ -1174,6 +1250,13 @@ fn part_e2e_nodes(o: &mut Outcome, rng: &mut Rng, thorough: bool) {
                 }
             }
         }
+        if let Some(full) = &pr.full {
+            o.count(&format!("e2e:full:{:?}:attr-lines={}", pr.hole, full[..full.len() - pr.node.len()].matches('\n').count().min(4)));
+            o.direct_evals += 1;
+            if count_occ(&out, full) != 1 {
+                problems.push(format!("the node's bytes WITH its attributes and doc comments (from the first attribute to the last token) occur {} times in the output", count_occ(&out, full)));
+            }
+        }
         let unformatted: Vec<&String> = pr.bad_neighbours.iter().filter(|t| out.contains(t.as_str())).collect();
         if !unformatted.is_empty() {
             // surroundings left as written: the run did not format at all (not C04's statement, but the
@@ -1186,10 +1269,292 @@ fn part_e2e_nodes(o: &mut Outcome, rng: &mut Rng, thorough: bool) {
             }
         }
         if !problems.is_empty() {
-            o.direct_failures.push(json!({"sig": format!("c04:skipped-node-not-verbatim:{}", tag), "what": problems.join("; "), "node": pr.node, "attr": pr.spelling, "chain": pr.chain, "config": cfg_text(cfg), "src": pr.src, "out": r.out}));
+            o.direct_failures.push(json!({"sig": format!("c04:skipped-node-not-verbatim:{}", tag), "what": problems.join("; "), "node": pr.node, "node_with_attributes": pr.full, "attr": pr.spelling, "chain": pr.chain, "config": cfg_text(cfg), "src": pr.src, "out": r.out}));
         }
         if o.samples.len() < 3 {
             o.sample(json!({"e2e": tag, "chain": pr.chain, "attr": pr.spelling, "config": cfg_text(cfg), "src": pr.src}));
+        }
+    }
+}
+
+// ------------------------------------------------------------------------------------------------
+// skipped nodes directly inside `macro_rules!` bodies that rustfmt formats
+//
+// A macro arm's body is formatted by a nested formatter that starts at indentation 0 and the arm's
+// indentation is then put in front of every line EXCEPT the lines of a recorded skipped range
+// (`MacroBranch::rewrite`, model RF/Model/MacroBody.lean): the second reader of `skipped_range`.  The
+// skipped node's bytes, attribute and doc-comment lines included, survive iff the recorded range covers
+// its verbatim copy.  Only nodes reached by the nested formatter's TOP-LEVEL visitor are generated
+// (directly in the body, in inline modules, in the bodies of fns of the body): the ranges of nested
+// visitors (impl / trait bodies, closures, inner blocks) are lost or unshifted on the pinned tree
+// (probe C04-macro-body-nested-visitor), and a skipped STATEMENT keeps only its first attribute line
+// out of the range on purpose (tests/target/issue-3105.rs), so that further attribute lines of a
+// statement are re-indented (probe C04-macro-body-stmt-attrs): statements get one attribute line.
+
+struct BodyProgram {
+    src: String,
+    /// from the first attribute of the skipped node to its last token
+    full: String,
+    kind: String,
+    shape: String,
+    accepted: bool,
+    /// badly laid out neighbours inside the same macro body: when they all survive the body was not
+    /// formatted at all (it does not fit, format_macro_bodies=false ...): the case is vacuous
+    body_bad: Vec<String>,
+    cfg: Vec<(String, String)>,
+}
+
+fn body_nodes(hole: Hole) -> Vec<usize> {
+    (0..NODES.len()).filter(|i| NODES[*i].1 == hole && NODES[*i].2.lines().all(|l| l.len() <= 60) && NODES[*i].0 != "macro_rules").collect()
+}
+
+fn macro_body_program(rng: &mut Rng, counter: &mut usize, thorough: bool, accepted: bool) -> Option<BodyProgram> {
+    let mut fresh = |prefix: &str| { *counter += 1; format!("{}{}x", prefix, counter) };
+    let stmt_body = rng.chance(1, 2);
+    // wrappers inside the body that the same visitor walks: inline modules (item bodies), then possibly a fn
+    let mut wrappers: Vec<&str> = vec![];
+    if !stmt_body {
+        for _ in 0..*rng.pick(&[0usize, 0, 0, 1, 1, 2]) { wrappers.push("mod"); }
+    }
+    if rng.chance(1, 5) { wrappers.push("fn"); }
+    let in_stmt_position = stmt_body || wrappers.last() == Some(&"fn");
+    let node_hole = if in_stmt_position && rng.chance(2, 3) { Hole::Stmt } else { Hole::Item };
+    let ix = *rng.pick(&body_nodes(node_hole));
+    let (kind, _, text) = NODES[ix];
+    let id = fresh("zq");
+    // sometimes the node's name is a macro variable
+    let var = accepted && matches!(kind, "fn" | "struct" | "enum" | "const" | "static" | "let" | "unit-struct" | "tuple-struct" | "union" | "type") && rng.chance(1, 3);
+    let node = if var { text.replace("ID", &format!("${}", id)) } else { text.replace("ID", &id) };
+    let spelling = if accepted { rng.pick(SPELLINGS).0 } else { *rng.pick(&["#[allow(rustfmt_skip)]", "#[cfg_attr(rustfmt, allow(unused))]", "#[clippy::skip]"]) };
+    // a statement: every attribute on the first line; an item: attribute lines, multi-line attributes, doc lines
+    // (a macro call with attributes in statement position is a statement, StmtKind::MacCall, not an item)
+    let as_stmt = node_hole == Hole::Stmt || (in_stmt_position && kind.starts_with("macro-item"));
+    let block = attr_block(rng, spelling, !as_stmt, as_stmt);
+    let full = format!("{}{}", block, node);
+    // the body
+    let (nb, _) = neighbour(if stmt_body { Hole::Stmt } else { Hole::Item });
+    let mut body = String::new();
+    let mut body_bad = vec![];
+    let n_before = rng.below(3);
+    let n_after = if n_before == 0 { rng.range(1, 3) } else { rng.below(3) };
+    for _ in 0..n_before {
+        let t = nb.replace("NB", &fresh("nb"));
+        body.push_str(&format!("{}{}{}", junk_indent(rng), t, *rng.pick(&["\n", "\n\n\n", "   \n"])));
+        body_bad.push(t);
+    }
+    let mut closers = vec![];
+    for (k, w) in wrappers.iter().enumerate() {
+        match *w {
+            "mod" => { body.push_str(&format!("{}mod  w{}  {{\n", junk_indent(rng), k)); closers.push("}"); }
+            _ => { body.push_str(&format!("{}fn  w{}( ) {{\n", junk_indent(rng), k)); closers.push("}"); }
+        }
+    }
+    if !wrappers.is_empty() && rng.chance(1, 2) {
+        let (nb2, _) = neighbour(if wrappers.last() == Some(&"fn") { Hole::Stmt } else { Hole::Item });
+        let t = nb2.replace("NB", &fresh("nb"));
+        body.push_str(&format!("{}{}\n", junk_indent(rng), t));
+        body_bad.push(t);
+    }
+    body.push_str(&junk_indent(rng));
+    body.push_str(&full);
+    body.push_str(*rng.pick(&["\n", "\n", "   \n", "\n\n\n"]));
+    for c in closers.iter().rev() {
+        body.push_str(&format!("{}{}\n", junk_indent(rng), c));
+    }
+    for _ in 0..n_after {
+        let t = nb.replace("NB", &fresh("nb"));
+        body.push_str(&format!("{}{}\n", junk_indent(rng), t));
+        body_bad.push(t);
+    }
+    // the definition
+    let mname = fresh("mr");
+    let matcher = if var { format!("( ${}:ident )", id) } else { rng.pick(&["( )", "( $a:expr )", "( $a:expr , $b:ty )", "( x )"]).to_string() };
+    let decl2 = !var && rng.chance(1, 8);
+    let mut def = String::new();
+    if decl2 {
+        def.push_str(&format!("{}macro  {}{} {{\n{}{}}}\n", junk_indent(rng), mname, matcher, body, junk_indent(rng)));
+    } else {
+        def.push_str(&format!("{}macro_rules!  {} {{\n", junk_indent(rng), mname));
+        let other_arm = |rng: &mut Rng, k: usize| format!("{}( other{} ) => {{ fn  o{}( ) {{ }} }} ;\n", junk_indent(rng), k, k);
+        if rng.chance(1, 4) { let a = other_arm(rng, 1); def.push_str(&a); }
+        def.push_str(&format!("{}{} => {{\n{}{}}}{}\n", junk_indent(rng), matcher, body, junk_indent(rng), *rng.pick(&[" ;", ";", ""])));
+        if rng.chance(1, 4) { let a = other_arm(rng, 2); def.push_str(&a); }
+        def.push_str(&format!("{}}}\n", junk_indent(rng)));
+    }
+    // around the definition: anything (the body's formatter is a fresh one whatever the definition sits in)
+    let target = *rng.pick(&[Hole::Item, Hole::Item, Hole::Stmt]);
+    let depth = rng.range(if target == Hole::Item { 0 } else { 1 }, 4);
+    let chain = chain_to(rng, target, depth)?;
+    let src = render_chain(rng, &chain, None, &def, "");
+    let mut cfg: Vec<(String, String)> = vec![("max_width".into(), rng.pick(&[100usize, 100, 137, 200]).to_string())];
+    if thorough && rng.chance(1, 2) { cfg[0].1 = rng.range(90, 200).to_string(); }
+    let n = *rng.pick(&[0usize, 0, 1, 1, 2]);
+    for (k, v) in random_option_set(rng, n) {
+        if k == "max_width" || k == "format_macro_bodies" { continue; }
+        cfg.push((k, v));
+    }
+    let shape = format!("{}{} body, wrappers {:?}, node in {} position, definition in {:?}{}", if decl2 { "macro 2.0, " } else { "" }, if stmt_body { "statement" } else { "item" }, wrappers, if in_stmt_position { "statement" } else { "item" }, chain.iter().map(|c| CONTAINERS[*c].0).collect::<Vec<_>>(), if var { ", name is a macro variable" } else { "" });
+    Some(BodyProgram { src, full, kind: format!("{:?}/{}", node_hole, kind), shape, accepted, body_bad, cfg })
+}
+
+fn part_e2e_macro_bodies(o: &mut Outcome, rng: &mut Rng, thorough: bool) {
+    let mut counter = 700000usize;
+    let mut progs = vec![];
+    let n = if thorough { 40000 } else { 1600 };
+    for i in 0..n {
+        if let Some(p) = macro_body_program(rng, &mut counter, thorough, i % 12 != 11) { progs.push(p); }
+    }
+    let limit = Duration::from_secs(if thorough { 20 } else { 10 });
+    let jobs1: Vec<Job> = progs.iter().map(|p| Job { src: p.src.clone(), cfg: p.cfg.clone(), file_lines: None }).collect();
+    let res1 = pool::run_jobs(&jobs1, jobs(), limit);
+    // the second pass: the output of the first as input
+    let jobs2: Vec<Job> = progs.iter().zip(res1.iter()).map(|(p, r)| Job { src: if r.status == Status::Ok { canon_newlines(&r.out, &p.cfg) } else { String::new() }, cfg: p.cfg.clone(), file_lines: None }).collect();
+    let res2 = pool::run_jobs(&jobs2, jobs(), limit);
+    for ((pr, r1), r2) in progs.iter().zip(res1.iter()).zip(res2.iter()) {
+        match &r1.status {
+            Status::Timeout => { o.count("mbody:timeout"); continue; }
+            Status::Ok => {}
+            other => {
+                o.direct_failures.push(json!({"sig": format!("c04:e2e-run-failed:macro-body:{}", pr.kind), "what": format!("the formatter did not finish on a generated program: {:?}", other), "src": pr.src, "config": cfg_text(&pr.cfg)}));
+                continue;
+            }
+        }
+        if r1.flags[1] || r1.out.is_empty() {
+            o.count(&format!("mbody:not-parsed:{}", pr.kind));
+            o.sample(json!({"not_parsed": pr.src}));
+            continue;
+        }
+        let out1 = canon_newlines(&r1.out, &pr.cfg);
+        let survivors = pr.body_bad.iter().filter(|t| out1.contains(t.as_str())).count();
+        if survivors == pr.body_bad.len() {
+            // the body was left as it is: nothing of it was formatted (it does not fit, or cannot be parsed
+            // as items / statements after the variables are replaced): vacuous; what the fallback does to a
+            // skipped node's trailing blanks is probe C04-macro-def-fallback
+            o.count("mbody:body-not-formatted(vacuous)");
+            if std::env::var("C04_DEBUG").is_ok() { eprintln!("VACUOUS [{}] {}\n--- src\n{}\n--- out\n{}\n", cfg_text(&pr.cfg), pr.shape, pr.src, r1.out); }
+            continue;
+        }
+        o.direct_evals += 1;
+        let occ1 = count_occ(&out1, &pr.full);
+        if !pr.accepted {
+            o.count(if occ1 == 0 { "mbody:control:reformatted" } else { "mbody:control:unchanged" });
+            if occ1 != 0 {
+                o.direct_failures.push(json!({"sig": format!("c04:control-node-not-reformatted:macro-body:{}", pr.kind), "what": "a node carrying an attribute that is not a skip attribute was left as written inside a formatted macro body: the search would not notice a skip that is not honoured", "src": pr.src, "out": r1.out}));
+            }
+            continue;
+        }
+        o.direct_distinct += 1;
+        o.count(&format!("mbody:node:{}", pr.kind));
+        o.count(&format!("mbody:attr-lines={}", pr.full.lines().take_while(|l| { let t = l.trim_start(); t.starts_with('#') || t.starts_with("//") || t.starts_with("/*") || t.is_empty() || !t.contains("zq") }).count().min(6)));
+        let mut problems = vec![];
+        if occ1 != 1 {
+            problems.push(format!("first pass: the node's bytes (attributes and doc comments included) occur {} times in the output", occ1));
+        }
+        let mut out2 = String::new();
+        match &r2.status {
+            Status::Ok if !r2.flags[1] && !r2.out.is_empty() => {
+                out2 = canon_newlines(&r2.out, &pr.cfg);
+                o.direct_evals += 1;
+                let occ2 = count_occ(&out2, &pr.full);
+                if occ2 != 1 {
+                    problems.push(format!("second pass (the output formatted again): the node's bytes occur {} times", occ2));
+                }
+                o.count(if out2 == out1 { "mbody:second-pass:same-text" } else { "mbody:second-pass:text-changed" });
+            }
+            Status::Timeout => o.count("mbody:timeout"),
+            _ => o.count("mbody:second-pass:did-not-run"),
+        }
+        if !problems.is_empty() {
+            o.direct_failures.push(json!({"sig": format!("c04:skipped-node-in-macro-body-not-verbatim:{}", pr.kind), "what": problems.join("; "), "node_with_attributes": pr.full, "shape": pr.shape, "config": cfg_text(&pr.cfg), "src": pr.src, "out": r1.out, "out_second_pass": out2}));
+        }
+        if o.samples.len() < 4 {
+            o.sample(json!({"mbody": pr.kind, "shape": pr.shape, "config": cfg_text(&pr.cfg), "src": pr.src}));
+        }
+    }
+}
+
+/// correspondence of the re-indentation of a formatted macro body (RF/Model/MacroBody.lean, `rewriteTail`)
+/// with `MacroBranch::rewrite` on real definitions: the hook formats the body with the functions the code
+/// calls (`format_snippet` / `format_code_block`) and reports the snippet and its non-formatted ranges;
+/// the model's result for them must be what `MacroBranch::rewrite` returned.
+fn part_mbody_corr(o: &mut Outcome, rng: &mut Rng, thorough: bool) {
+    struct Case { src: String, cfg: Vec<(String, String)>, what: String }
+    let pieces_items: &[&str] = &[
+        "fn  a( x:u32 ) {   }",
+        "struct  S { a:u32,   b :u32 }",
+        "#[rustfmt::skip]\nfn  b( ) {   \n        let  x=[1 ,2] ;\n  }",
+        "  #[rustfmt::skip]\n      #[cfg(any(feature = \"a\",\n                  feature = \"b\"))]\n  /// doc\n  ///     more\n     pub fn  c( ) -> [u8; 4] {\n            [1, 2,\n             3, 4]\n        }",
+        "#[allow( unused )]\n#[rustfmt::skip]\nconst  T :[u8;2]=[1,\n   2] ;",
+        "const  S :&str=\"first line\n     second line\n  third\" ;",
+        "const  S2 :&str=\"wrapped \\\n     continued \\\n  end\" ;",
+        "/* a comment with \"a string\n   inside\n*/\nfn  d( ) { }",
+        "// \"quoted\n//    text\"\nfn  e( ) { }",
+        "mod  inner {\n#[rustfmt::skip]\n   fn  f( ) {  \n }\n fn  g( a:u32 ) { }\n}",
+        "impl  S {\n  #[rustfmt::skip]\n   fn  f( ) {  \n      1 ;\n }\n fn  g( a:u32 ) { }\n}",
+        "#[rustfmt::skip] use  a::{c ,  b} ;",
+        "use  a::{c ,  b} ;",
+        "",
+    ];
+    let pieces_stmts: &[&str] = &[
+        "let  a=f( 1 ,2 ) ;",
+        "#[rustfmt::skip]\n   let  b  =  [ 1 ,\n  2 ] ;",
+        "#[rustfmt::skip] #[allow( unused )]\n   let  c  =  [ 1 ,\n  2 ] ;",
+        "#[rustfmt::skip]\n  #[allow( unused )]\n   let  c2  =  [ 1 ,\n  2 ] ;",
+        "let  s=\"first line\n     second line\n  third\" ;",
+        "let  s2=\"wrapped \\\n     continued \\\n  end\" ;",
+        "#[rustfmt::skip]\n  fn  inner( ) {   \n   }",
+        "g( | x | {\n #[rustfmt::skip]\n  let  y  =  [ 1 ,\n 2 ] ;\n y } ) ;",
+        "$a ;",
+        "/* c \"\n  s \" */ h( ) ;",
+        "",
+    ];
+    let mut cases = vec![];
+    let n = if thorough { 6000 } else { 500 };
+    for k in 0..n {
+        let stmt = rng.chance(1, 2);
+        let pool_ = if stmt { pieces_stmts } else { pieces_items };
+        let mut body = String::new();
+        for _ in 0..rng.range(1, 5) {
+            let pc = *rng.pick(pool_);
+            for l in pc.split('\n') {
+                body.push_str(&junk_indent(rng));
+                body.push_str(l);
+                body.push('\n');
+            }
+            if rng.chance(1, 4) { body.push('\n'); }
+        }
+        let block_body = rng.chance(1, 6);
+        let matcher = *rng.pick(&["( )", "( $a:expr )", "( $a:expr , $name:ident )"]);
+        if rng.chance(1, 3) { body = body.replacen("fn  a(", "fn  $name(", 1).replacen("let  a=", "let  $name=", 1); }
+        let matcher = if body.contains("$name") { "( $a:expr , $name:ident )" } else if body.contains("$a") { "( $a:expr )" } else { matcher };
+        let src = if block_body { format!("macro_rules!  m{} {{\n {} => {{{{\n{}}}}} ;\n}}\n", k, matcher, body) } else { format!("macro_rules!  m{} {{\n {} => {{\n{}}} ;\n}}\n", k, matcher, body) };
+        let mut cfg: Vec<(String, String)> = vec![];
+        if rng.chance(1, 2) { cfg.push(("format_strings".into(), "true".into())); }
+        if rng.chance(1, 2) { cfg.push(("style_edition".into(), "2024".into())); }
+        match rng.below(6) { 0 => cfg.push(("hard_tabs".into(), "true".into())), 1 => cfg.push(("tab_spaces".into(), "2".into())), 2 => cfg.push(("brace_style".into(), "AlwaysNextLine".into())), 3 => cfg.push(("max_width".into(), "60".into())), _ => {} }
+        cases.push(Case { src, cfg, what: format!("{} body{}", if stmt { "statement" } else { "item" }, if block_body { ", block" } else { "" }) });
+    }
+    let runs: Vec<Option<hs::MacroBodyRun>> = par_map(&cases, |c| {
+        let mut config = Config::default();
+        for (k, v) in &c.cfg { config.override_value(k, v); }
+        let (src, cfg2) = (c.src.clone(), config.clone());
+        std::panic::catch_unwind(move || hs::macro_body(&src, &cfg2)).unwrap_or(None)
+    });
+    for (c, r) in cases.iter().zip(runs.iter()) {
+        let r = match r { Some(r) => r, None => { o.count("mbody-corr:no-run(body does not parse / not formattable)"); continue; } };
+        let arm = match &r.arm { Some(a) => a, None => { o.count("mbody-corr:MacroBranch::rewrite failed (does not fit)"); continue; } };
+        let ranges = if r.ranges.is_empty() { "_".to_string() } else { r.ranges.iter().map(|(a, b)| format!("{}-{}", a, b)).collect::<Vec<_>>().join(",") };
+        let substs = if r.substs.is_empty() { "_".to_string() } else { r.substs.iter().map(|(old, new)| format!("{}:{}", enc_str(old), enc_str(new))).collect::<Vec<_>>().join(",") };
+        let fs = cfg_get(&c.cfg, "format_strings") == Some("true");
+        let ed = cfg_get(&c.cfg, "style_edition") == Some("2024");
+        let req = format!("skip.mbody {} {} {} {} {} {} {} {} {}", enc_str(&r.prefix), enc_str(&r.arm_indent), enc_str(&r.body_indent), bit(r.has_block_body), bit(fs), bit(ed), substs, ranges, enc_str(&r.snippet));
+        o.push("corr", "skip.mbody", req, enc_str(arm), format!("{} [{}]", c.what, cfg_text(&c.cfg)), !r.ranges.is_empty());
+        o.count(&format!("mbody-corr:{}:{}:ranges={}", if r.as_items { "items" } else { "code-block" }, if r.has_block_body { "block" } else { "plain" }, r.ranges.len().min(3)));
+        // the definition as visit_item gets it holds the arm
+        if let Some(d) = &r.definition {
+            if !d.contains(arm.as_str()) {
+                o.direct_failures.push(json!({"sig": "c04:macro-def-does-not-hold-the-arm", "what": "rewrite_macro_def's result does not contain what MacroBranch::rewrite returned for the first arm (harness assumption)", "src": c.src, "arm": arm, "definition": d}));
+            }
         }
     }
 }
@@ -1891,6 +2256,8 @@ pub fn run(tier: &str, seed: u64, out: &Path) -> i32 {
     if want("gen") { part_generated_trim(&mut o, &mut rng.fork(), thorough); } else { rng.fork(); }
     if want("buffer") { part_buffer(&mut o, &mut rng.fork(), thorough); } else { rng.fork(); }
     if want("nodes") { part_e2e_nodes(&mut o, &mut rng.fork(), thorough); } else { rng.fork(); }
+    if want("mbody") { part_e2e_macro_bodies(&mut o, &mut rng.fork(), thorough); } else { rng.fork(); }
+    if want("mbodycorr") { part_mbody_corr(&mut o, &mut rng.fork(), thorough); } else { rng.fork(); }
     if want("scoped") { part_e2e_scoped(&mut o, &mut rng.fork(), thorough); } else { rng.fork(); }
     if want("files") { part_files(&mut o, &mut rng.fork(), thorough, out); } else { rng.fork(); }
     if want("probes") { part_probes(&mut o, out); }
